@@ -3,7 +3,7 @@
 # 1. confirms the seeded change (demo passes on /repo, patch applies to a scratch copy, baseline suite unchanged with it,
 #    demo fails with it); 2. runs ./check against the scratch copy; 3. stores it under seeded/<Cxx>-mNN with meta.json.
 set -u
-src=$(readlink -f "$1"); pid=$2; tier=${3:-quick}; m=$(basename "$src")
+src=$(readlink -f "$1"); pid=$2; tier=${3:-quick}; tag=${4:-}; m=$tag$(basename "$src")
 cd "$(dirname "$0")/.."
 scratch=/var/tmp/seedeval-$pid-$m-$$
 rm -rf $scratch; mkdir -p $scratch; (cd /repo && git archive HEAD | tar -x -C $scratch)
